@@ -384,6 +384,9 @@ func main() {
 	if os.Args[1] == "replay" {
 		os.Exit(replayMain(os.Args[2]))
 	}
+	if os.Args[1] == "smoke" {
+		os.Exit(smokeMain(os.Args[2]))
+	}
 	prop, tier := os.Args[1], os.Args[2]
 	if t := os.Getenv("VERIF_TIER"); t != "" && len(os.Args) < 4 {
 		_ = t
@@ -526,6 +529,14 @@ func runScenario(a *agg, name, tier string, seed uint64, budget time.Duration) {
 		go func() {
 			defer wg.Done()
 			for time.Now().Before(deadline) {
+				if stopOnViolation {
+					a.mu.Lock()
+					found := len(a.viol) > 0
+					a.mu.Unlock()
+					if found {
+						return
+					}
+				}
 				nmu.Lock()
 				idx := next
 				next++
@@ -555,6 +566,55 @@ func runScenario(a *agg, name, tier string, seed uint64, budget time.Duration) {
 		}()
 	}
 	wg.Wait()
+}
+
+var stopOnViolation bool
+
+// smokeMain: one build, then every scenario of the listed properties (comma separated, or ALL) for
+// VERIF_BUDGET_SEC seconds each (default 10), stopping at the first violation. No minimisation, no
+// evidence: a cheap "does anything notice this change" sweep used for mutation analysis.
+func smokeMain(list string) int {
+	var ids []string
+	if list == "ALL" {
+		for id := range props {
+			ids = append(ids, id)
+		}
+		sort.Strings(ids)
+	} else {
+		ids = strings.Split(list, ",")
+	}
+	secs := 10
+	if v := os.Getenv("VERIF_BUDGET_SEC"); v != "" {
+		if n, err := strconv.Atoi(v); err == nil {
+			secs = n
+		}
+	}
+	seed := baseSeed()
+	build()
+	defer cleanup()
+	stopOnViolation = true
+	for _, id := range ids {
+		ps, ok := props[id]
+		if !ok {
+			die(2, "unknown property %s", id)
+		}
+		for _, sb := range ps.Scenarios {
+			a := &agg{hashes: map[string]bool{}, faults: map[string]int{}, probes: map[string]int{}, perScenario: map[string]int{}, panicClasses: map[string]int{}, points: map[string]bool{}, spawns: map[string]int{}}
+			runScenario(a, sb.Name, "quick", seed, time.Duration(secs)*time.Second)
+			if len(a.infra) > 0 {
+				fmt.Printf("SMOKE-RESULT infra %s: %s\n", sb.Name, a.infra[0])
+				cleanup()
+				return 2
+			}
+			if len(a.viol) > 0 {
+				fmt.Printf("SMOKE-RESULT caught property=%s scenario=%s signature=%s\n", id, sb.Name, a.viol[0].Violations[0].Sig)
+				cleanup()
+				return 1
+			}
+		}
+	}
+	fmt.Println("SMOKE-RESULT clean")
+	return 0
 }
 
 func tail(s string, n int) string {
